@@ -185,6 +185,13 @@ class Session(BusSession):
             hm.fields.append((R.F_CONTAINER_INSTANCE, (b'o', b'/forged/instance')))
             self.send(l, hm)
             rep = self.take_reply(l, s)
+            # the monitor's copy of a successful Hello call: its writer HAS a unique name by the time the call is shown
+            # (the one the reply carries), so that is the sender every receiver must see -- not a placeholder
+            if rep is not None and rep.kind == R.MT_RETURN and self.state[l] == 'connected':
+                newname = rep.args()[0]
+                for o in self.inbox.get('M', []):
+                    if o.kind == R.MT_CALL and o.member == b'Hello' and o.serial == s and o.sender != newname:
+                        out.append(Violation('wrong-sender', 'monitor:hello', 'Hello of %s (now %r): the monitor was shown the call with SENDER %r' % (l, newname, o.sender), None))
             self.check_monitor(out, 'Hello of %s with forged fields' % l)
             if self.state[l] == 'connected':
                 if rep is None or rep.kind != R.MT_RETURN:
